@@ -344,4 +344,462 @@ theorem stepE_spec (C : Cipher) (hlen : ∀ k x, x.length = 16 → (C.enc k x).l
   simp only [] at *
   rw [i2, i3]; rfl
 
+/-! ### beltWBLStepD2 -/
+
+theorem xorb_split (x y1 y2 : Bytes) (a : Nat) (ha : a = y1.length) (h : a ≤ x.length) :
+    xorb (x.take a) y1 ++ xorb (x.drop a) y2 = xorb x (y1 ++ y2) := by
+  subst ha
+  rw [← xorb_append _ _ _ _ (by simp; omega), List.take_append_drop]
+
+/-- the loop with `i + 32 < count` followed by one conditional step is the loop with `i + 16 < count` -/
+theorem xbf_32_16 (b : Bytes) : ∀ (f i : Nat) (acc : Bytes), b.length ≤ i + 16 * f →
+    ((xorBlocksFrom b 16 f i acc).1 =
+      if (xorBlocksFrom b 32 f i acc).2 + 16 < b.length
+      then xorb (xorBlocksFrom b 32 f i acc).1 (getBlk b (xorBlocksFrom b 32 f i acc).2)
+      else (xorBlocksFrom b 32 f i acc).1) ∧
+    ¬ ((xorBlocksFrom b 32 f i acc).2 + 32 < b.length) ∧ i ≤ (xorBlocksFrom b 32 f i acc).2 := by
+  intro f
+  induction f with
+  | zero =>
+    intro i acc h
+    have hn : ¬ (i + 16 < b.length) := by omega
+    refine ⟨?_, ?_, Nat.le_refl _⟩
+    · show acc = if i + 16 < b.length then xorb acc (getBlk b i) else acc
+      rw [if_neg hn]
+    · show ¬ (i + 32 < b.length)
+      omega
+  | succ f ih =>
+    intro i acc h
+    by_cases hc : i + 32 < b.length
+    · have hc' : i + 16 < b.length := by omega
+      simp only [xorBlocksFrom, hc, hc', if_true]
+      obtain ⟨h1, h2, h3⟩ := ih (i + 16) (xorb acc (getBlk b i)) (by omega)
+      exact ⟨h1, h2, by omega⟩
+    · rw [xbf_stop b 32 _ i acc hc]
+      simp only []
+      refine ⟨?_, hc, Nat.le_refl _⟩
+      by_cases hc' : i + 16 < b.length
+      · simp only [xorBlocksFrom, hc', if_true]
+        rw [xbf_stop b 16 _ (i + 16) _ (by omega)]
+      · rw [xbf_stop b 16 _ i acc hc', if_neg hc']
+
+theorem roundD2_form (C : Cipher) (hlen : ∀ k x, x.length = 16 → (C.enc k x).length = 16)
+    (key M T S : Bytes) (hT : T.length = 16) (hS : S.length = 16) (round : Nat) :
+    (wblRoundD2 C key (M ++ T, S) round).1 ++ (wblRoundD2 C key (M ++ T, S) round).2
+      = wblRoundDBase C key (M ++ (T ++ S)) round ∧
+    (wblRoundD2 C key (M ++ T, S) round).1.length = (M ++ T).length ∧
+    (wblRoundD2 C key (M ++ T, S) round).2.length = 16 := by
+  have he := length_encRound C hlen key S round hS
+  have hT' : (xorb T (encRound C key S round)).length = 16 := by rw [length_xorb]; omega
+  rw [roundD_form C hlen key M T S hT hS round]
+  have hc : (M ++ T).length + 16 = 32 + M.length := by simp [hT]; omega
+  have hg : getBlk (M ++ T) (32 + M.length - 32) = T := by
+    have := getBlk_append M T [] (32 + M.length - 32) (by omega) hT
+    simpa using this
+  have ht : (M ++ T).take (32 + M.length - 32) = M := List.take_left' (by omega)
+  simp only [wblRoundD2, hc, hg, ht]
+  generalize hT2 : xorb T (encRound C key S round) = T2 at *
+  have hfull : S ++ M ++ T2 = S ++ (M ++ T2) := List.append_assoc _ _ _
+  have hflen : (S ++ (M ++ T2)).length = 32 + M.length := by simp [hS, hT']; omega
+  rw [hfull, List.take_left' hS]
+  obtain ⟨h1, h2, h3⟩ := xbf_32_16 (S ++ (M ++ T2)) (32 + M.length) 16 S (by omega)
+  rw [hflen] at h1 h2
+  generalize hj : (xorBlocksFrom (S ++ (M ++ T2)) 32 (32 + M.length) 16 S).2 = j at *
+  have hsl : (xorBlocksFrom (S ++ (M ++ T2)) 32 (32 + M.length) 16 S).1.length = 16 := by
+    rw [length_xbf _ 32 (by omega) _ _ _ (by omega), hS]
+  generalize hs1 : (xorBlocksFrom (S ++ (M ++ T2)) 32 (32 + M.length) 16 S).1 = s1 at *
+  have hr : (if j + 16 < 32 + M.length then
+        xorb (s1.take (32 + M.length - 16 - j)) ((S ++ M).drop j) ++
+          xorb (s1.drop (32 + M.length - 16 - j)) (T2.take (32 + j - (32 + M.length)))
+      else s1) = (xorBlocksFrom (S ++ (M ++ T2)) 16 (32 + M.length) 16 S).1 := by
+    rw [h1]
+    by_cases hjc : j + 16 < 32 + M.length
+    · rw [if_pos hjc, if_pos hjc]
+      rw [xorb_split s1 _ _ _ (by simp [hS]; omega) (by omega)]
+      congr 1
+      unfold getBlk
+      have hd : List.drop j (S ++ M ++ T2) = List.drop j (S ++ M) ++ T2 :=
+        List.drop_append_of_le_length (by simp [hS]; omega)
+      rw [← List.append_assoc, hd, List.take_append]
+      have ht1 : List.take 16 (List.drop j (S ++ M)) = List.drop j (S ++ M) :=
+        List.take_of_length_le (by simp [hS]; omega)
+      rw [ht1]
+      congr 2
+      simp [hS]; omega
+    · rw [if_neg hjc, if_neg hjc]
+  rw [hr]
+  generalize hs2 : (xorBlocksFrom (S ++ (M ++ T2)) 16 (32 + M.length) 16 S).1 = s2
+  have hs2l : s2.length = S.length := by
+    rw [← hs2]; exact length_xbf _ 16 (by omega) _ _ _ (by omega)
+  have hp := putAt_append [] S M s2 0 rfl hs2l
+  simp only [List.nil_append] at hp
+  rw [hp]
+  refine ⟨by simp, by simp [hs2l, hS, hT]; omega, hT'⟩
+
+theorem roundD2_spec (C : Cipher) (hlen : ∀ k x, x.length = 16 → (C.enc k x).length = 16)
+    (key b1 b2 : Bytes) (h1 : 16 ≤ b1.length) (h2 : b2.length = 16) (round : Nat) :
+    (wblRoundD2 C key (b1, b2) round).1 ++ (wblRoundD2 C key (b1, b2) round).2
+      = wblRoundDBase C key (b1 ++ b2) round ∧
+    (wblRoundD2 C key (b1, b2) round).1.length = b1.length ∧
+    (wblRoundD2 C key (b1, b2) round).2.length = 16 := by
+  have hb : b1 = b1.take (b1.length - 16) ++ b1.drop (b1.length - 16) := (List.take_append_drop _ _).symm
+  have hT : (b1.drop (b1.length - 16)).length = 16 := by simp; omega
+  rw [hb, List.append_assoc]
+  exact roundD2_form C hlen key _ _ b2 hT h2 round
+
+theorem iterD2_spec (C : Cipher) (hlen : ∀ k x, x.length = 16 → (C.enc k x).length = 16) (key : Bytes) :
+    ∀ (n : Nat) (b1 b2 : Bytes), 16 ≤ b1.length → b2.length = 16 →
+    (wblIterD2 C key n (b1, b2)).1 ++ (wblIterD2 C key n (b1, b2)).2
+      = wblIterD (wblRoundDBase C key) n (b1 ++ b2) ∧
+    (wblIterD2 C key n (b1, b2)).1.length = b1.length ∧ (wblIterD2 C key n (b1, b2)).2.length = 16 := by
+  intro n
+  induction n with
+  | zero => intro b1 b2 _ h2; exact ⟨rfl, rfl, h2⟩
+  | succ n ih =>
+    intro b1 b2 h1 h2
+    obtain ⟨r1, r2, r3⟩ := roundD2_spec C hlen key b1 b2 h1 h2 (n + 1)
+    simp only [wblIterD2, wblIterD]
+    obtain ⟨i1, i2, i3⟩ := ih (wblRoundD2 C key (b1, b2) (n + 1)).1 (wblRoundD2 C key (b1, b2) (n + 1)).2
+      (by omega) r3
+    rw [← r1]
+    exact ⟨i1, by rw [i2, r2], i3⟩
+
+theorem stepD2_spec (C : Cipher) (hlen : ∀ k x, x.length = 16 → (C.enc k x).length = 16)
+    (key b1 b2 : Bytes) (h1 : 16 ≤ b1.length) (h2 : b2.length = 16) :
+    (wblStepD2 C key b1 b2).1 ++ (wblStepD2 C key b1 b2).2.1 = (wblStepDBase C key (b1 ++ b2)).1 ∧
+    (wblStepD2 C key b1 b2).1.length = b1.length ∧ (wblStepD2 C key b1 b2).2.1.length = 16 ∧
+    (wblStepD2 C key b1 b2).2.2 = 0 := by
+  obtain ⟨i1, i2, i3⟩ := iterD2_spec C hlen key (2 * wblN (b1.length + 16)) b1 b2 h1 h2
+  simp only [wblStepD2, wblStepDBase, List.length_append, h2]
+  exact ⟨i1, i2, i3, trivial⟩
+
+/-- `take`/`drop` of an append at the boundary, as one fact -/
+theorem append_eq_split (x y b : Bytes) (h : x ++ y = b) (hx : x.length = b.length - 16) :
+    x = b.take (b.length - 16) ∧ y = b.drop (b.length - 16) := by
+  subst h
+  rw [← hx]
+  exact ⟨(List.take_left (l₁ := x) (l₂ := y)).symm, (List.drop_left (l₁ := x) (l₂ := y)).symm⟩
+
+theorem length_stepD (C : Cipher) (hlen : ∀ k x, x.length = 16 → (C.enc k x).length = 16)
+    (key buf : Bytes) (h : 32 ≤ buf.length) : (wblStepDBase C key buf).1.length = buf.length :=
+  length_iterD _ (fun b r hb => length_roundD C hlen key b hb r) _ buf h
+
+/-- `beltWBLStepD2` on the split token = `beltWBLStepDBase` on the whole token -/
+theorem stepD2_split (C : Cipher) (hlen : ∀ k x, x.length = 16 → (C.enc k x).length = 16)
+    (key buf : Bytes) (h : 32 ≤ buf.length) :
+    wblStepD2 C key (buf.take (buf.length - 16)) (buf.drop (buf.length - 16)) =
+      ((wblStepDBase C key buf).1.take (buf.length - 16), (wblStepDBase C key buf).1.drop (buf.length - 16), 0) := by
+  obtain ⟨i1, i2, i3, i4⟩ := stepD2_spec C hlen key (buf.take (buf.length - 16)) (buf.drop (buf.length - 16))
+    (by simp; omega) (by simp; omega)
+  rw [List.take_append_drop] at i1
+  have hl := length_stepD C hlen key buf h
+  obtain ⟨e1, e2⟩ := append_eq_split _ _ _ i1 (by rw [i2, hl]; simp)
+  rw [hl] at e1 e2
+  generalize wblStepD2 C key (buf.take (buf.length - 16)) (buf.drop (buf.length - 16)) = r at *
+  obtain ⟨r1, r2, r3⟩ := r
+  simp only [] at e1 e2 i4
+  rw [e1, e2, i4]
+
+/-! ### KWP -/
+
+theorem kwpUnwrap_char (C : Cipher) (hlen : ∀ k x, x.length = 16 → (C.enc k x).length = 16)
+    (tok : Bytes) (header : Option Bytes) (key : Bytes) :
+    kwpUnwrap C tok header key =
+      if tok.length < 32 ∨ validKeyLen key.length = false then (.badInput, none)
+      else if (wblStepDBase C (fmtKey key) tok).1.drop (tok.length - 16) = header.getD (zeros 16)
+        then (.ok, some ((wblStepDBase C (fmtKey key) tok).1.take (tok.length - 16)))
+        else (.badKeytoken, some (zeros (tok.length - 16))) := by
+  unfold kwpUnwrap
+  by_cases h1 : tok.length < 32
+  · simp [h1]
+  · by_cases h2 : validKeyLen key.length = false
+    · simp [h2]
+    · have h2' : validKeyLen key.length = true := by simpa using h2
+      have hc1 : (decide (tok.length < 32) || !validKeyLen key.length) = false := by simp [h1, h2']
+      have hc2 : ¬ (tok.length < 32 ∨ validKeyLen key.length = false) := by simp [h1, h2']
+      rw [if_neg hc2]
+      simp only [hc1, Bool.false_eq_true, if_false]
+      rw [stepD2_split C hlen (fmtKey key) tok (by omega)]
+      simp only []
+      cases header with
+      | none =>
+        simp only [Option.getD_none]
+        by_cases h3 : List.drop (tok.length - 16) (wblStepDBase C (fmtKey key) tok).1 = zeros 16
+        · simp [h3]
+        · simp [h3]
+      | some hd =>
+        simp only [Option.getD_some]
+        by_cases h3 : List.drop (tok.length - 16) (wblStepDBase C (fmtKey key) tok).1 = hd
+        · simp [h3]
+        · have h3' : ¬ hd = List.drop (tok.length - 16) (wblStepDBase C (fmtKey key) tok).1 := fun e => h3 e.symm
+          simp [h3, h3']
+
+/-! ### SDE -/
+
+theorem xorAt0_xorAt0 (buf s : Bytes) (hb : 16 ≤ buf.length) (hs : s.length = 16) :
+    xorAt (xorAt buf 0 s) 0 s = buf ∧ (xorAt buf 0 s).length = buf.length := by
+  have hb' : buf = [] ++ (buf.take 16 ++ buf.drop 16) := by simp
+  have hH : (buf.take 16).length = 16 := by simp; omega
+  rw [hb', xorAt_append [] _ _ s 0 rfl hH hs, xorAt_append [] _ _ s 0 rfl (by rw [length_xorb]; omega) hs,
+    xorb_cancel _ _ (by omega)]
+  simp [length_xorb, hs]; omega
+
+/-! ### Opt = Base, E direction -/
+
+/-- `r1 + … + r_{n-1}` as computed by `beltWBLStepEBase` / at the start of `beltWBLStepEOpt` -/
+def xs (b : Bytes) : Bytes := (xorBlocksFrom b 16 b.length 16 (b.take 16)).1
+
+/-- cyclic view of the Opt buffer: the Base buffer is the Opt buffer read from offset `i` -/
+def rot (b : Bytes) (i : Nat) : Bytes := b.drop i ++ b.take i
+
+theorem xbf_shift (A b : Bytes) (stop : Nat) : ∀ (f i : Nat) (acc : Bytes),
+    (xorBlocksFrom (A ++ b) stop f (A.length + i) acc).1 = (xorBlocksFrom b stop f i acc).1 := by
+  intro f
+  induction f with
+  | zero => intro i acc; rfl
+  | succ f ih =>
+    intro i acc
+    have hg : getBlk (A ++ b) (A.length + i) = getBlk b i := by
+      unfold getBlk; rw [← List.drop_drop, List.drop_left]
+    simp only [xorBlocksFrom, List.length_append]
+    by_cases h : i + stop < b.length
+    · rw [if_pos (by omega), if_pos h, hg, Nat.add_assoc, ih]
+    · rw [if_neg (by omega), if_neg h]
+
+theorem xbf_shift0 (A b : Bytes) (stop k : Nat) (hk : A.length = k) (f : Nat) (acc : Bytes) :
+    (xorBlocksFrom (A ++ b) stop f k acc).1 = (xorBlocksFrom b stop f 0 acc).1 := by
+  have := xbf_shift A b stop f 0 acc
+  rw [Nat.add_zero, hk] at this
+  exact this
+
+theorem xbf_fuel (b : Bytes) (stop : Nat) : ∀ (f f' i : Nat) (acc : Bytes),
+    b.length ≤ i + stop + 16 * f → b.length ≤ i + stop + 16 * f' →
+    xorBlocksFrom b stop f i acc = xorBlocksFrom b stop f' i acc := by
+  intro f
+  induction f with
+  | zero =>
+    intro f' i acc h _
+    rw [xbf_stop b stop 0 i acc (by omega), xbf_stop b stop f' i acc (by omega)]
+  | succ f ih =>
+    intro f' i acc h h'
+    cases f' with
+    | zero => rw [xbf_stop b stop 0 i acc (by omega), xbf_stop b stop (f + 1) i acc (by omega)]
+    | succ f' =>
+      simp only [xorBlocksFrom]
+      split
+      · exact ih f' (i + 16) _ (by omega) (by omega)
+      · rfl
+
+/-- replacing the last two blocks `Y ‖ Z` of an aligned buffer by one block `R` removes `Y` from the sum -/
+theorem xbf_swap_tail (Y Z R : Bytes) (hY : Y.length = 16) (hZ : Z.length = 16) (hR : R.length = 16) :
+    ∀ (f : Nat) (M acc : Bytes), M.length % 16 = 0 → M.length + 16 ≤ 16 * f →
+    (xorBlocksFrom (M ++ (Y ++ Z)) 16 f 0 acc).1 = xorb (xorBlocksFrom (M ++ R) 16 f 0 acc).1 Y := by
+  intro f
+  induction f with
+  | zero => intro M acc _ h; omega
+  | succ f ih =>
+    intro M acc hM hf
+    by_cases h0 : M.length = 0
+    · have : M = [] := List.eq_nil_of_length_eq_zero h0
+      subst this
+      have hg : getBlk (Y ++ Z) 0 = Y := by
+        have := getBlk_append [] Y Z 0 rfl hY
+        simpa using this
+      simp only [List.nil_append, xorBlocksFrom, List.length_append, hY, hZ, hR]
+      rw [if_pos (by omega), if_neg (by omega), hg, xbf_stop _ _ _ _ _ (by simp [hY, hZ])]
+    · have hB : (M.take 16).length = 16 := by simp; omega
+      have hM' : M = M.take 16 ++ M.drop 16 := (List.take_append_drop _ _).symm
+      generalize M.take 16 = B at hB hM'
+      generalize M.drop 16 = M' at hM'
+      subst hM'
+      have hl : (B ++ M').length = 16 + M'.length := by simp [hB]
+      rw [hl] at hM hf
+      have hg1 : getBlk (B ++ M' ++ (Y ++ Z)) 0 = B := by
+        have := getBlk_append [] B (M' ++ (Y ++ Z)) 0 rfl hB
+        simpa using this
+      have hg2 : getBlk (B ++ M' ++ R) 0 = B := by
+        have := getBlk_append [] B (M' ++ R) 0 rfl hB
+        simpa using this
+      simp only [xorBlocksFrom, List.length_append, hY, hZ, hR, hB]
+      rw [if_pos (by omega), if_pos (by omega), hg1, hg2]
+      rw [List.append_assoc, List.append_assoc, xbf_shift0 B _ 16 (0 + 16) (by omega),
+        xbf_shift0 B _ 16 (0 + 16) (by omega)]
+      exact ih M' _ (by omega) (by omega)
+
+theorem xs_eq0 (b : Bytes) (h : 16 < b.length) :
+    xs b = (xorBlocksFrom b 16 (b.length + 1) 0 (zeros 16)).1 := by
+  unfold xs
+  simp only [xorBlocksFrom]
+  rw [if_pos (by omega)]
+  have : getBlk b 0 = b.take 16 := by simp [getBlk]
+  rw [this, zeros_xorb _ 16 (by simp; omega)]
+
+theorem length_xs (b : Bytes) (h : 16 ≤ b.length) : (xs b).length = 16 := by
+  unfold xs
+  rw [length_xbf _ 16 (by omega) _ _ _ (by simp; omega)]; simp; omega
+
+/-- the sum of the next round from the sum of this round (the update done by `beltWBLStepEOpt`) -/
+theorem xs_next (R1 M Rs Y Z : Bytes) (h1 : R1.length = 16) (hs : Rs.length = 16) (hY : Y.length = 16)
+    (hZ : Z.length = 16) (hM : M.length % 16 = 0) :
+    xs (M ++ (Y ++ Z)) = xorb (xorb (xs (R1 ++ (M ++ Rs))) Y) R1 := by
+  have hl2 : (M ++ (Y ++ Z)).length = M.length + 32 := by simp [hY, hZ]
+  have hl1 : (R1 ++ (M ++ Rs)).length = M.length + 32 := by simp [h1, hs]; omega
+  rw [xs_eq0 _ (by omega), hl2, xbf_swap_tail Y Z Rs hY hZ hs _ M _ hM (by omega)]
+  have e : xs (R1 ++ (M ++ Rs)) = xorb R1 (xorBlocksFrom (M ++ Rs) 16 (M.length + 32 + 1) 0 (zeros 16)).1 := by
+    unfold xs
+    rw [hl1, List.take_left' h1]
+    rw [xbf_shift0 R1 _ 16 16 h1, xbf_acc _ _ _ _ R1 (by omega),
+      xbf_fuel (M ++ Rs) 16 (M.length + 32) (M.length + 32 + 1) 0 _ (by simp [hs]; omega) (by simp [hs]; omega)]
+  rw [e]
+  generalize hW : (xorBlocksFrom (M ++ Rs) 16 (M.length + 32 + 1) 0 (zeros 16)).1 = W
+  have hWl : W.length = 16 := by
+    rw [← hW, length_xbf _ 16 (by omega) _ _ _ (by simp [length_zeros]), length_zeros]
+  rw [xorb_right_comm (xorb R1 W) Y R1, xorb_comm R1 W, xorb_cancel W R1 (by omega)]
+
+theorem roundE_form' (C : Cipher) (hlen : ∀ k x, x.length = 16 → (C.enc k x).length = 16)
+    (key H M T : Bytes) (hH : H.length = 16) (hT : T.length = 16) (round : Nat) :
+    wblRoundEBase C key (H ++ (M ++ T)) round =
+      (M ++ (xorb T (encRound C key (xs (H ++ (M ++ T))) (round + 1)) ++ xs (H ++ (M ++ T))), round + 1) := by
+  have : xs (H ++ (M ++ T)) = (xorBlocksFrom (H ++ (M ++ T)) 16 (32 + M.length) 16 H).1 := by
+    unfold xs; rw [length3 H M T hH hT, List.take_left' hH]
+  rw [this]; exact roundE_form C hlen key H M T hH hT round
+
+theorem split4 (b : Bytes) (i : Nat) (h16 : 16 ≤ i) (hi : i + 16 ≤ b.length) :
+    ∃ P Rs R1 S : Bytes, b = P ++ (Rs ++ (R1 ++ S)) ∧ P.length = i - 16 ∧ Rs.length = 16 ∧ R1.length = 16 := by
+  refine ⟨b.take (i - 16), (b.drop (i - 16)).take 16, ((b.drop (i - 16)).drop 16).take 16,
+    ((b.drop (i - 16)).drop 16).drop 16, ?_, ?_, ?_, ?_⟩
+  · rw [List.take_append_drop, List.take_append_drop, List.take_append_drop]
+  · simp; omega
+  · simp; omega
+  · simp; omega
+
+/-- Opt round, `i = 0`: the buffer is `r1 ‖ S ‖ r*` -/
+theorem roundEOpt_A (C : Cipher) (hlen : ∀ k x, x.length = 16 → (C.enc k x).length = 16)
+    (key R1 S Rs sum : Bytes) (h1 : R1.length = 16) (hs : Rs.length = 16) (hsum : sum.length = 16) (r : Nat) :
+    wblRoundEOpt C key (R1 ++ (S ++ Rs), sum, 0, r) =
+      (sum ++ (S ++ xorb Rs (encRound C key sum (r + 1))),
+       xorb (xorb sum (xorb Rs (encRound C key sum (r + 1)))) R1, 16, r + 1) := by
+  have he := length_encRound C hlen key sum (r + 1) hsum
+  generalize hblk : encRound C key sum (r + 1) = blk at *
+  have hl : (R1 ++ (S ++ Rs)).length = 32 + S.length := by simp [h1, hs]; omega
+  have hj : (0 + (32 + S.length) - 16) % (32 + S.length) = 16 + S.length := by
+    rw [Nat.mod_eq_of_lt (by omega)]; omega
+  have hx : xorAt (R1 ++ (S ++ Rs)) (16 + S.length) blk = R1 ++ (S ++ xorb Rs blk) := by
+    have := xorAt_append (R1 ++ S) Rs [] blk (16 + S.length) (by simp [h1]) hs he
+    simpa using this
+  have hg1 : getBlk (R1 ++ (S ++ xorb Rs blk)) (16 + S.length) = xorb Rs blk := by
+    have := getBlk_append (R1 ++ S) (xorb Rs blk) [] (16 + S.length) (by simp [h1]) (by rw [length_xorb]; omega)
+    simpa using this
+  have hg2 : getBlk (R1 ++ (S ++ xorb Rs blk)) 0 = R1 := by
+    have := getBlk_append [] R1 (S ++ xorb Rs blk) 0 rfl h1
+    simpa using this
+  have hp : putAt (R1 ++ (S ++ xorb Rs blk)) 0 sum = sum ++ (S ++ xorb Rs blk) := by
+    have := putAt_append [] R1 (S ++ xorb Rs blk) sum 0 rfl (by omega)
+    simpa using this
+  simp only [wblRoundEOpt, hblk, hl, hj, hx, hg1, hg2, hp]
+  rw [Nat.mod_eq_of_lt (by omega)]
+
+/-- Opt round, `i > 0`: the buffer is `P ‖ r* ‖ r1 ‖ S` with `i = |P| + 16` -/
+theorem roundEOpt_B (C : Cipher) (hlen : ∀ k x, x.length = 16 → (C.enc k x).length = 16)
+    (key P Rs R1 S sum : Bytes) (h1 : R1.length = 16) (hs : Rs.length = 16) (hsum : sum.length = 16) (r : Nat) :
+    wblRoundEOpt C key (P ++ (Rs ++ (R1 ++ S)), sum, P.length + 16, r) =
+      (P ++ (xorb Rs (encRound C key sum (r + 1)) ++ (sum ++ S)),
+       xorb (xorb sum (xorb Rs (encRound C key sum (r + 1)))) R1,
+       (P.length + 16 + 16) % (P.length + 32 + S.length), r + 1) := by
+  have he := length_encRound C hlen key sum (r + 1) hsum
+  generalize hblk : encRound C key sum (r + 1) = blk at *
+  have hl : (P ++ (Rs ++ (R1 ++ S))).length = P.length + 32 + S.length := by simp [h1, hs]; omega
+  have hj : (P.length + 16 + (P.length + 32 + S.length) - 16) % (P.length + 32 + S.length) = P.length := by
+    have : P.length + 16 + (P.length + 32 + S.length) - 16 = P.length + (P.length + 32 + S.length) := by omega
+    rw [this, Nat.add_mod_right, Nat.mod_eq_of_lt (by omega)]
+  have hx : xorAt (P ++ (Rs ++ (R1 ++ S))) P.length blk = P ++ (xorb Rs blk ++ (R1 ++ S)) :=
+    xorAt_append P Rs (R1 ++ S) blk P.length rfl hs he
+  have hrl : (xorb Rs blk).length = 16 := by rw [length_xorb]; omega
+  have hg1 : getBlk (P ++ (xorb Rs blk ++ (R1 ++ S))) P.length = xorb Rs blk :=
+    getBlk_append P (xorb Rs blk) (R1 ++ S) P.length rfl hrl
+  have hg2 : getBlk (P ++ (xorb Rs blk ++ (R1 ++ S))) (P.length + 16) = R1 := by
+    have := getBlk_append (P ++ xorb Rs blk) R1 S (P.length + 16) (by simp [hrl]) h1
+    simpa using this
+  have hp : putAt (P ++ (xorb Rs blk ++ (R1 ++ S))) (P.length + 16) sum = P ++ (xorb Rs blk ++ (sum ++ S)) := by
+    have := putAt_append (P ++ xorb Rs blk) R1 S sum (P.length + 16) (by simp [hrl]) (by omega)
+    simpa using this
+  simp only [wblRoundEOpt, hblk, hl, hj, hx, hg1, hg2, hp]
+
+theorem rot_zero (b : Bytes) : rot b 0 = b := by simp [rot]
+
+theorem rot_append_mod (X S : Bytes) : rot (X ++ S) (X.length % (X ++ S).length) = S ++ X := by
+  by_cases h : S.length = 0
+  · have : S = [] := List.eq_nil_of_length_eq_zero h
+    subst this
+    simp [rot]
+  · rw [Nat.mod_eq_of_lt (by simp; omega)]
+    simp [rot]
+
+/-- one Opt round simulates one Base round on the rotated buffer -/
+theorem simE (C : Cipher) (hlen : ∀ k x, x.length = 16 → (C.enc k x).length = 16)
+    (key bO : Bytes) (i r : Nat) (hc : bO.length % 16 = 0) (h32 : 32 ≤ bO.length)
+    (hi : i % 16 = 0) (hic : i < bO.length) :
+    (wblRoundEOpt C key (bO, xs (rot bO i), i, r)).1.length = bO.length ∧
+    (wblRoundEOpt C key (bO, xs (rot bO i), i, r)).2.2.1 = (i + 16) % bO.length ∧
+    (wblRoundEOpt C key (bO, xs (rot bO i), i, r)).2.2.2 = r + 1 ∧
+    rot (wblRoundEOpt C key (bO, xs (rot bO i), i, r)).1 ((i + 16) % bO.length)
+      = (wblRoundEBase C key (rot bO i) r).1 ∧
+    (wblRoundEOpt C key (bO, xs (rot bO i), i, r)).2.1 = xs (wblRoundEBase C key (rot bO i) r).1 := by
+  by_cases h0 : i = 0
+  · subst h0
+    obtain ⟨R1, S, Rs, rfl, h1, hs⟩ := split3 bO h32
+    rw [rot_zero]
+    have hl : (R1 ++ (S ++ Rs)).length = 32 + S.length := length3 R1 S Rs h1 hs
+    have hsum := length_xs (R1 ++ (S ++ Rs)) (by omega)
+    generalize hsm : xs (R1 ++ (S ++ Rs)) = sum at *
+    have he := length_encRound C hlen key sum (r + 1) hsum
+    rw [roundEOpt_A C hlen key R1 S Rs sum h1 hs hsum r, roundE_form' C hlen key R1 S Rs h1 hs r, hsm]
+    simp only []
+    have hrl : (xorb Rs (encRound C key sum (r + 1))).length = 16 := by rw [length_xorb]; omega
+    rw [hl, Nat.zero_add, Nat.mod_eq_of_lt (by omega)]
+    refine ⟨by simp [hsum, hrl]; omega, by first | rfl | trivial, by first | rfl | trivial, ?_, ?_⟩
+    · have := rot_append_mod sum (S ++ xorb Rs (encRound C key sum (r + 1)))
+      rw [Nat.mod_eq_of_lt (by simp [hsum, hrl]), hsum] at this
+      rw [this, List.append_assoc]
+    · rw [hl] at hc
+      rw [xs_next R1 S Rs _ sum h1 hs hrl hsum (by omega), hsm]
+  · obtain ⟨P, Rs, R1, S, rfl, hP, hs, h1⟩ := split4 bO i (by omega) (by omega)
+    have hl : (P ++ (Rs ++ (R1 ++ S))).length = P.length + 32 + S.length := by simp [h1, hs]; omega
+    have hi' : i = P.length + 16 := by omega
+    subst hi'
+    have hrot : rot (P ++ (Rs ++ (R1 ++ S))) (P.length + 16) = R1 ++ ((S ++ P) ++ Rs) := by
+      have : P ++ (Rs ++ (R1 ++ S)) = (P ++ Rs) ++ (R1 ++ S) := by simp
+      unfold rot
+      rw [this, List.drop_left' (by simp [hs]), List.take_left' (by simp [hs])]
+      simp
+    rw [hrot]
+    have hrl' : (R1 ++ ((S ++ P) ++ Rs)).length = P.length + 32 + S.length := by simp [h1, hs]; omega
+    have hsum := length_xs (R1 ++ ((S ++ P) ++ Rs)) (by omega)
+    generalize hsm : xs (R1 ++ ((S ++ P) ++ Rs)) = sum at *
+    have he := length_encRound C hlen key sum (r + 1) hsum
+    rw [roundEOpt_B C hlen key P Rs R1 S sum h1 hs hsum r, roundE_form' C hlen key R1 (S ++ P) Rs h1 hs r, hsm]
+    simp only []
+    have hrl : (xorb Rs (encRound C key sum (r + 1))).length = 16 := by rw [length_xorb]; omega
+    rw [hl]
+    refine ⟨by simp [hsum, hrl]; omega, by first | rfl | trivial, by first | rfl | trivial, ?_, ?_⟩
+    · have := rot_append_mod (P ++ (xorb Rs (encRound C key sum (r + 1)) ++ sum)) S
+      have e1 : (P ++ (xorb Rs (encRound C key sum (r + 1)) ++ sum)).length = P.length + 16 + 16 := by
+        simp [hsum, hrl]
+      have e2 : ((P ++ (xorb Rs (encRound C key sum (r + 1)) ++ sum)) ++ S).length = P.length + 32 + S.length := by
+        simp [hsum, hrl]; omega
+      rw [e1, e2] at this
+      have e3 : P ++ (xorb Rs (encRound C key sum (r + 1)) ++ (sum ++ S))
+          = (P ++ (xorb Rs (encRound C key sum (r + 1)) ++ sum)) ++ S := by simp
+      rw [e3, this, List.append_assoc]
+    · rw [hl] at hc
+      rw [xs_next R1 (S ++ P) Rs _ sum h1 hs hrl hsum (by simp; omega), hsm]
+
+/-! ### a toy cipher for the non-vacuity examples -/
+
+/-- adds 1 to every octet (keyless); only used to evaluate examples by `decide` -/
+def toyCipher : Cipher := ⟨fun _ x => x.map (· + 1), fun _ x => x.map (· - 1)⟩
+
+theorem toyCipher_len : ∀ k x, x.length = 16 → (toyCipher.enc k x).length = 16 := by
+  intro k x h; simp [toyCipher, h]
+
 end Bee2V.C01.Wbl
